@@ -1,5 +1,5 @@
 import NbioVerif.Model.Ws
-/-! probe: C15 — with a message length limit, no buffered partial message and no delivered message exceeds it -/
+/-! C15 helper lemmas: sizes of what `nextFrame` hands out -/
 namespace Ws
 
 theorem maskSpec_length (key b : Bytes) : (maskSpec key b).length = b.length := by
@@ -15,9 +15,12 @@ theorem frameBody_length (cache : Bytes) (h : HdrInfo) (hc : cache.length ≥ h.
   · rw [maskSpec_length, this]
   · exact this
 
-/-- a frame handed out by nextFrame fits into the limit together with what is already assembled -/
-theorem nextFrame_fits (g : Cfg) (s : S) (hl : g.msgLimit > 0) (total op : Nat) (body : Bytes) (fin r1 : Bool)
-    (h : nextFrame g s = .frame total op body fin r1) : msgLen s + body.length ≤ g.msgLimit := by
+/-- what `nextFrame` returns when it returns a frame, in terms of the decoded header -/
+theorem nextFrame_frame_inv (g : Cfg) (s : S) (total op : Nat) (body : Bytes) (fin r1 : Bool)
+    (h : nextFrame g s = .frame total op body fin r1) :
+    ∃ hd : HdrInfo, decodeHdr s.cache = some (.ok hd) ∧ sizeCheck g (msgLen s) hd = none ∧ 0 ≤ hd.bodyLen ∧
+      s.cache.length ≥ hd.headLen + hd.bodyLen.toNat ∧ validFrame g hd.opcode hd.fin hd.r1 hd.r2 hd.r3 s.expecting = none ∧
+      total = hd.headLen + hd.bodyLen.toNat ∧ op = hd.opcode ∧ body = frameBody s.cache hd ∧ fin = hd.fin ∧ r1 = hd.r1 := by
   unfold nextFrame at h
   split at h
   · cases h
@@ -30,30 +33,44 @@ theorem nextFrame_fits (g : Cfg) (s : S) (hl : g.msgLimit > 0) (total op : Nat) 
       · rename_i hc
         split at h
         · cases h
-        · cases h
-          rw [frameBody_length _ _ hc.2]
-          unfold sizeCheck at hsz
-          split at hsz
-          · cases hsz
-          · rename_i hnl
-            simp only [tooLarge, hl, decide_true, Bool.true_and, decide_eq_true_eq] at hnl
-            have := hc.1
-            omega
+        · rename_i hv
+          cases h
+          exact ⟨hd, hdec, hsz, hc.1, hc.2, hv, rfl, rfl, rfl, rfl, rfl⟩
       · cases h
+
+/-- a data frame handed out by nextFrame fits into the limit together with what is already assembled -/
+theorem nextFrame_fits (g : Cfg) (s : S) (hl : g.msgLimit > 0) (total op : Nat) (body : Bytes) (fin r1 : Bool)
+    (h : nextFrame g s = .frame total op body fin r1) (hop : isControl op = false) :
+    msgLen s + body.length ≤ g.msgLimit := by
+  obtain ⟨hd, _, hsz, h0, hc, _, _, hop', hb, _, _⟩ := nextFrame_frame_inv g s total op body fin r1 h
+  subst hb; subst hop'
+  rw [frameBody_length _ _ hc]
+  unfold sizeCheck at hsz
+  split at hsz
+  · cases hsz
+  · rename_i hnl
+    simp only [hop, Bool.not_false, Bool.true_and, tooLarge, hl, decide_true, decide_eq_true_eq] at hnl
+    omega
+
+/-- a control frame handed out by nextFrame carries at most 125 bytes -/
+theorem nextFrame_control_le (g : Cfg) (s : S) (total op : Nat) (body : Bytes) (fin r1 : Bool)
+    (h : nextFrame g s = .frame total op body fin r1) (hop : isControl op = true) : body.length ≤ 125 := by
+  obtain ⟨hd, _, hsz, h0, hc, _, _, hop', hb, _, _⟩ := nextFrame_frame_inv g s total op body fin r1 h
+  subst hb; subst hop'
+  rw [frameBody_length _ _ hc]
+  unfold sizeCheck at hsz
+  split at hsz
+  · cases hsz
+  · split at hsz
+    · cases hsz
+    · rename_i hn
+      simp only [hop, Bool.and_true, decide_eq_true_eq] at hn
+      omega
 
 /-- the invariant: what is assembled so far is within the limit -/
 def Within (g : Cfg) (s : S) : Prop := g.msgLimit > 0 → msgLen s ≤ g.msgLimit
 
 def delivered (acts : List Act) : List Bytes :=
   acts.filterMap (fun a => match a with | .deliver _ p => some p | _ => none)
-
-theorem handleWs_delivers (g : Cfg) (s : S) (op : Nat) (m : Bytes) :
-    ∀ p ∈ delivered (handleWs g s op m).1, p = m := by
-  unfold handleWs send
-  intro p hp
-  simp only [] at hp
-  repeat' split at hp
-  all_goals (simp [delivered, List.filterMap_map, List.filterMap_append] at hp)
-  all_goals (first | exact hp | (try (obtain ⟨_, _, h⟩ := hp; exact h.symm)))
 
 end Ws
